@@ -1,8 +1,9 @@
 (* Extraction of Model/Sync.v (C10).  ExtrOcamlBasic only; no Extract Constant. *)
 From Coq Require Extraction ExtrOcamlBasic.
-From Verif Require Import Base.Str Model.Sync.
+From Verif Require Import Base.Str Gen.GenSync Model.Sync.
 Extraction Language OCaml.
 Extraction "Extract/m_sync.ml"
   Sync.init Sync.exec Sync.run Sync.run_trace Sync.push_outcome Sync.canon
   Sync.remote_map Sync.local_map Sync.tracking_map Sync.Known_C10 Sync.writes
-  Sync.FetchNotes Sync.PushNotes.
+  Sync.FetchNotes Sync.PushNotes Sync.push_part0 Sync.push_part1 Sync.push_part2 Sync.push_part3
+  Sync.fetch_part0 Sync.fetch_part1 Sync.fetch_part2 Sync.no_commit_in_copy_window Sync.guard Sync.pending_of.
